@@ -37,17 +37,22 @@ def gen_cases(seed, tier, n):
     return out
 
 
+_K = [1]         # time scale of the case being run (quarter-microsecond cases, framework.resolution)
+
+
 def observe(g):
-    o = cp.dump_graph(g)
-    bd = cp.dump_breakdown(g)
+    k = _K[0]
+    o = cp.dump_graph(g, k)
+    bd = cp.dump_breakdown(g, k)
     o["breakdown"] = sorted(([r["event_idx"] if r["event_idx"] is not None else -1, r["duration"], r["type"], r["bound_by"]] for r in (bd or [])))
-    o["path_weight"] = sum(int(g.edges[u, v]["weight"]) for u, v in zip(g.critical_path_nodes, g.critical_path_nodes[1:]))
+    o["path_weight"] = sum((int(g.edges[u, v]["weight"]) if k == 1 else fw.as_int(g.edges[u, v]["weight"] * k)) for u, v in zip(g.critical_path_nodes, g.critical_path_nodes[1:]))
     o["trace_index"] = sorted(int(i) for i in g.trace_df.index)
     return o
 
 
 def run_impl(case, d):
     from hta.analyzers.critical_path_analysis import restore_cpgraph
+    _K[0] = fw.time_scale(case)
     res, ta, g = cp.run_cp(case, d, zero_weight_env=case["params"]["zw"])
     if g is None or "graph" not in res or not res.get("success"):
         return res
@@ -72,7 +77,8 @@ def run_impl(case, d):
             if k == ncycles - 1:
                 # only after the last cycle: a restored graph that is saved again must be stored as it is (saving must not recompute or alter it)
                 ok = cur.critical_path()
-                w2 = sum(int(cur.edges[u, v]["weight"]) for u, v in zip(cur.critical_path_nodes, cur.critical_path_nodes[1:]))
+                w2 = sum((int(cur.edges[u, v]["weight"]) if _K[0] == 1 else fw.as_int(cur.edges[u, v]["weight"] * _K[0]))
+                         for u, v in zip(cur.critical_path_nodes, cur.critical_path_nodes[1:]))
                 if not ok or w2 != before["path_weight"]:
                     diffs.append(f"after {k + 1} cycle(s): recomputed critical path weighs {w2} (success={ok}), the original {before['path_weight']}")
         # history: what-if weights set on the (restored) graph WITHOUT recomputing the path, then saved: the file must hold the graph as it is --
@@ -81,7 +87,7 @@ def run_impl(case, d):
         if edges_:
             for (u, v) in edges_:
                 if rng.random() < 0.4:
-                    cur.edges[u, v]["weight"] = int(cur.edges[u, v]["weight"]) * rng.choice([2, 3, 10]) + rng.choice([0, 1])
+                    cur.edges[u, v]["weight"] = (int(cur.edges[u, v]["weight"]) if _K[0] == 1 else cur.edges[u, v]["weight"]) * rng.choice([2, 3, 10]) + rng.choice([0, 1])
             b3 = observe(cur)
             z3 = cur.save(os.path.join(d, "cp_save_whatif"))
             r3 = restore_cpgraph(z3, ta.t, res["rank"])
